@@ -21,7 +21,7 @@ import warnings
 import pyrtl
 from pyrtl.rtllib import muxes, barrel, libutils
 
-RULE = ('[calling forms: every fixed-signature helper is called positionally, by keywords (both orders) and mixed, '
+RULE = ('[slice model: proved = CPython slice.indices = the declarative Python slice for all lengths/bounds (Props/C14Slice.v); still compared with list(range(n))[s:e] for n<=9 on every run] [calling forms: every fixed-signature helper is called positionally, by keywords (both orders) and mixed, '
         'round-robin; mux also in its deprecated truecase=/falsecase= keyword form and its keyword misuses] '
         '[bitfield_update_set: EVERY ordered pair of distinct (start,end) keys over {None,-n-1..n+1} for n<=3 (4 in '
         'thorough), ordered triples / wider wires with one alias per bit interval; overlap decided on bit sets] '
@@ -37,11 +37,14 @@ IMPORTS = ('From Coq Require Import ZArith List String.\n'
            'From PyRTL Require Import Front.SliceC14 Front.Mux Front.Struct Front.C14Harness.\n'
            'Import ListNotations. Open Scope Z_scope. Open Scope string_scope.')
 COQ_TARGETS = ['theories/Front/C14Harness.vo']
-PROPS_FILES = ['theories/Props/C14.v', 'theories/Props/C14Tie.v']
+PROPS_FILES = ['theories/Props/C14.v', 'theories/Props/C14Tie.v', 'theories/Props/C14Slice.v']
 TRUSTED = ['py/genfrag_C14.py: fragment locator + pyfrag expression translator (Gen/MuxRules.v)',
            'py/checks/C14.py oracles: plain-Python bit-level reading of the docstrings of the helpers',
-           'Front/SliceC14.v pyslice = Python slice semantics for step 1 (compared with list(range(n))[s:e] '
-           'for every n <= 9 and every bound in {None,-n-2..n+2} on every run)']
+           'Front/PySliceProofs.v is_slice_of: the declarative statement of Python slicing from the language reference '
+           '(shared with C06).  Front/SliceC14.v pyslice is NO LONGER trusted: Props/C14Slice.v proves, for every length '
+           'and all bounds, that it equals C06\'s transcription of CPython slice.indices and is the unique list '
+           'satisfying is_slice_of; the run-time comparison with list(range(n))[s:e] (n <= 9, bounds {None,-n-2..n+2}) '
+           'now checks that shared statement against Python itself']
 ASSUMPTIONS = ['bit_in, direction and every prioritized_mux select are 1-bit wires',
                'segment widths, partition sizes, component bitwidths and matrix sizes are positive',
                'pattern characters are ASCII; field letters are valid Python identifiers',
